@@ -78,6 +78,14 @@ pub fn cells(tier: Tier) -> Vec<CellPlan> {
         EvOp::EmitS(SK::EM, Mode::Broadcast, Some(0)),
     ];
     c.rounds = if q { 3 } else { 4 };
+    // ... under every order of the server's send-side systems (`reset` among them) that the
+    // library's declared constraints leave open
+    for (choice, desc) in order_choices(&c.cfg).into_iter().filter(|(ch, _)| ch.0) {
+        let mut c = c.clone();
+        c.cfg.order_choice = Some(choice);
+        c.name = format!("c09-restart-order[{desc}]");
+        v.push(plan(c, if q { 0 } else { 1 }, 1.0));
+    }
     v.push(plan(c, if q { 1 } else { 2 }, 3.0));
 
     // Events buffered on the server (emitted on a frame without a tick) at the moment it stops.
@@ -231,4 +239,4 @@ pub fn cells(tier: Tier) -> Vec<CellPlan> {
     v
 }
 
-pub const RULE: &str = "histories of world operations and event emissions with a client disconnect or server stop injected at every round (with update, mutate, acknowledgement and event messages held in flight or buffered by earlier deviations), >= 1 frame down, then reconnect / restart, x schedules with <= d deviations; no panic, per-frame confirmed-tick oracle and session-aware recipient oracle in the new session, no traffic for closed connections, convergence after closure; non-trivial = at least one event emitted or observed";
+pub const RULE: &str = "histories of world operations and event emissions with a client disconnect or server stop injected at every round (with update, mutate, acknowledgement and event messages held in flight or buffered by earlier deviations), >= 1 frame down, then reconnect / restart, x schedules with <= d deviations; the restart cell also under both resolutions of every pair of send-side library systems whose order the declared constraints leave open; no panic, per-frame confirmed-tick oracle and session-aware recipient oracle in the new session, no traffic for closed connections, convergence after closure; non-trivial = at least one event emitted or observed";
